@@ -6,38 +6,9 @@ import (
 	"encoding/json"
 
 	"github.com/gkampitakis/go-snaps/internal/vxrt"
+	"github.com/gkampitakis/go-snaps/match"
 	"github.com/tidwall/gjson"
 )
-
-// compactRef strips insignificant white space (outside strings): the harness's
-// own reference for "parses to the same JSON value" on the template documents.
-func compactRef(s string) string {
-	out := ""
-	inStr := false
-	esc := false
-	for i := 0; i < len(s); i++ {
-		c := s[i]
-		if inStr {
-			out += s[i : i+1]
-			if esc {
-				esc = false
-			} else if c == '\\' {
-				esc = true
-			} else if c == '"' {
-				inStr = false
-			}
-			continue
-		}
-		if c == ' ' || c == '\t' || c == '\n' || c == '\r' {
-			continue
-		}
-		if c == '"' {
-			inStr = true
-		}
-		out += s[i : i+1]
-	}
-	return out
-}
 
 // ws returns an insignificant white-space byte at the one gap chosen for this
 // path (wsGap), nothing at the other gaps.
@@ -138,6 +109,16 @@ func H_C14_canonical() {
 	vxrt.Assert(okRaw && vxrt.Eq(sPlain, sRaw), "C14:raw-message-stores-identically")
 	sSpaced, ok4 := snap(spaced)
 	vxrt.Assert(ok1 && ok2 && ok3 && ok4, "C14:template-accepted")
+	// the caller's own bytes (white space included) are only read, with or without a matcher
+	callerBytes := []byte(spaced)
+	sSpacedBytes, ok6 := snap(callerBytes)
+	vxrt.Assert(ok6 && vxrt.Eq(sPlain, sSpacedBytes), "C14:string-and-bytes-store-identically")
+	vxrt.Assert(vxrt.Eq(string(callerBytes), spaced), "C14:caller-bytes-untouched")
+	nth++
+	tm := newT("TestForm" + itoa(nth))
+	c.MatchJSON(tm, callerBytes, match.Any("no.such.member").ErrOnMissingPath(false))
+	tm.end()
+	vxrt.Assert(len(tm.errors) == 0 && vxrt.Eq(string(callerBytes), spaced), "C14:caller-bytes-untouched")
 	vxrt.Assert(vxrt.Eq(sPlain, sBytes), "C14:string-and-bytes-store-identically")
 	vxrt.Assert(vxrt.Eq(sPlain, sValue), "C14:go-value-stores-identically")
 	vxrt.Assert(vxrt.Eq(sPlain, sSpaced), "C14:whitespace-insensitive")
